@@ -1,4 +1,5 @@
 import QrlModel.Proofs.DilScalar
+import QrlModel.Proofs.NttBridge
 /-! # C12 — Dilithium ring arithmetic is exact on its whole operating domain
 
 Every theorem here is about the *generated* definitions `Gen.Dil.*` (the Go functions of reduce.go,
@@ -92,6 +93,36 @@ theorem constants : Q = 8380417 ∧ (QInv * Q) % 4294967296 = 1 ∧ GAMMA2 = 261
     (41978 * 256) % 8380417 = (4294967296 * 4294967296) % 8380417 := by decide
 
 -- non-vacuity: operands at the ends of the stated ranges
+/-- **NTT multiplication is ring multiplication**: for any two polynomials with 256 coefficients in `[−q, q]`,
+`invNTTToMont (pointwise (ntt a) (ntt b))` — on the model's 32-bit wrap-around arithmetic, with the generated
+`zetas` table and the generated `montgomeryReduce` — is exactly the negacyclic product `a·b mod (X^256 + 1)` over
+`Z_q` (`phi` maps an int32 coefficient to its residue in `ZMod q`), and no intermediate value leaves int32;
+the result's coefficients are in `[−q, q]`.  Unbounded in the inputs: structural induction over the CRT tree
+(`Proofs/NttField`), 127 + 255 + 1 table facts by `decide +kernel` (`Proofs/NttTable`), and a BitVec→field
+bridge with explicit growth bounds (`Proofs/NttBridge`). -/
+theorem ntt_mul_eq_negacyclic (a b : Qrl.Dil.Poly) (ha : a.length = 256) (hb : b.length = 256)
+    (Ba : NttBridge.Bnd 8380417 a) (Bb : NttBridge.Bnd 8380417 b) :
+    (Qrl.Dil.invNTTToMont (Qrl.Dil.polyPointwise (Qrl.Dil.ntt a) (Qrl.Dil.ntt b))).map NttBridge.phi =
+      NttF.mulNega 256 (a.map NttBridge.phi) (b.map NttBridge.phi) ∧
+    NttBridge.Bnd 8380417 (Qrl.Dil.invNTTToMont (Qrl.Dil.polyPointwise (Qrl.Dil.ntt a) (Qrl.Dil.ntt b))) :=
+  NttBridge.ntt_mul_eq_negacyclic a b ha hb Ba Bb
+
+/-- the forward transform alone: evaluation at the 256 roots of `X^256 + 1`, coefficients grow by at most `8q` -/
+theorem ntt_is_evaluation (a : Qrl.Dil.Poly) (ha : a.length = 256) (Ba : NttBridge.Bnd 8380417 a) :
+    (Qrl.Dil.ntt a).map NttBridge.phi = (NttF.pts NttTable.z 7 1).map (NttF.evalPoly (a.map NttBridge.phi)) ∧
+    NttBridge.Bnd (9 * 8380417) (Qrl.Dil.ntt a) := by
+  obtain ⟨e, b⟩ := NttBridge.ntt_bridge 8 1 a 8380417 Ba (by norm_num) (by norm_num)
+  have e9 : (8380417 : Int) + ((8 : Nat) : Int) * 8380417 = 9 * 8380417 := by norm_num
+  rw [e9] at b
+  refine ⟨?_, b⟩
+  unfold Qrl.Dil.ntt
+  rw [e]
+  exact NttF.nttF_eval NttTable.z NttTable.treeOK 7 1 _ (Nat.le_refl 1) (by norm_num) (by simpa using ha)
+
+example : NttBridge.Bnd 8380417 (List.replicate 256 (5#32)) ∧ (List.replicate 256 (5#32)).length = 256 := by
+  refine ⟨?_, List.length_replicate⟩
+  intro x hx; rw [List.eq_of_mem_replicate hx]; decide
+
 example : (montgomeryReduce (BitVec.ofInt 64 (2147483648 * 8380417 - 1))).toInt < 8380417 := by decide
 example : (decompose 8380416#32) = (0#32, BitVec.ofInt 32 (-1)) := by decide
 
